@@ -40,5 +40,5 @@ ExportCase == stage = "Done" =>
 
 ExportConcat == phase = "done" =>
                   PrintT(<<"CONCAT", ToJson([parts |-> parts,
-                                             expect |-> [n |-> IF list = "nil" THEN 0 ELSE list, cls |-> ListClass]])>>)
+                                             expect |-> [n |-> list.n, cls |-> ListClass]])>>)
 =============================================================================
